@@ -8,7 +8,8 @@
 //!         then round-robin rounds until every task finished.
 //! mode 1: wake-driven executor: only tasks whose waker fired since their last poll are
 //!         polled; each schedule entry picks among the currently woken tasks; if no task is
-//!         woken while some are unfinished the run is reported as LOST (lost wake-up).
+//!         woken while some are unfinished the run is reported as LOST (lost wake-up); the third
+//!         answer field is the sequence of polled tasks.
 //! lookup kind: 0 fill_symbol, 1 walk_frame, 2 get_symbol_at_address (only valid for keys with
 //!         cf=0, ci=0, df>0, di>0; otherwise treated as 0)
 //! outc: 0 Ok, 1 NotFound, 2 MissingDebugFileOrId, 3 LoadError, 4 ParseError
@@ -311,7 +312,7 @@ fn run(line: &str) -> String {
                 }
             }
         } else {
-            mid = "-".to_string();
+            let mut trace: Vec<String> = vec![];
             let mut si = 0usize;
             let mut polls = 0usize;
             loop {
@@ -332,8 +333,10 @@ fn run(line: &str) -> String {
                 let pick = if si < sched.len() { sched[si] } else { 0 };
                 si += 1;
                 polls += 1;
+                trace.push(woken[pick % woken.len()].to_string());
                 poll_task(&mut futs, woken[pick % woken.len()]);
             }
+            mid = if trace.is_empty() { "-".to_string() } else { trace.join(".") };
         }
     }
     let p = symbolizer.pending_stats();
